@@ -155,6 +155,15 @@ def deviations(idx, nissuers_below):
         add("ski-crit=%d" % cr, lambda c, cr=cr: set_ext(c, "ski", "ski:%d:20" % cr))
         add("ski-empty-crit=%d" % cr, lambda c, cr=cr: set_ext(c, "ski", "ski:%d:0" % cr))
     add("unk-critical-first", lambda c: c["x"].insert(0, "unk:1"))
+    # extension OIDs that alias a recognised one when an arc is reduced mod 2^32 / carries redundant septets / is too long
+    for arc, an in ((19, "bc"), (15, "ku"), (37, "eku"), (32, "cp"), (17, "san"), (35, "aki"), (14, "ski"), (33, "pm")):
+        for cr in (1, -1):
+            add("add-rawoid-%s+2^32-crit=%d" % (an, cr), lambda c, arc=arc, cr=cr: c["x"].append("rawoid:%d:551d90808080%02x" % (cr, arc)))
+        add("add-rawoid-%s-leading-0x80-crit=1" % an, lambda c, arc=arc: c["x"].append("rawoid:1:551d80%02x" % arc))
+        add("add-rawoid-%s-6-septets-crit=1" % an, lambda c, arc=arc: c["x"].append("rawoid:1:551d8180808080%02x" % arc))
+    for cr in (1, 0, -1):
+        add("add-rawoid-max-arc-crit=%d" % cr, lambda c, cr=cr: c["x"].append("rawoid:%d:551d8fffffff7f" % cr))
+        add("add-rawoid-2^28-arc-crit=%d" % cr, lambda c, cr=cr: c["x"].append("rawoid:%d:551d8180808020" % cr))
     add("no-extensions", lambda c: c.update(x=[]))
     return d
 
@@ -166,6 +175,8 @@ def dev_group(name):
         return "validity-wrap:" + name
     for p in ("version", "bc-ca", "bc-crit", "bc-twice", "ku=", "ku-crit", "eku=", "add-", "ski-"):
         if name.startswith(p):
+            if name.startswith("add-rawoid"):
+                return "add-ext:" + name
             if p == "add-":
                 return "add-ext:" + name.split("-")[1] + ":" + name.split("=")[-1]
             if p == "eku=":
@@ -222,6 +233,8 @@ def gen(ctx):
                         if not thorough and role == 1 and ncas == 2 and not (name.startswith("eku") or name.startswith("bc")):
                             continue
                         if not thorough and name.startswith(("nb=now+2^", "nb=now-2^", "na=now+2^")) and (role == 1 or ncas == 2) and "life=1y" not in name:
+                            continue
+                        if not thorough and name.startswith("add-rawoid") and (role == 1 or ncas == 2) and "cp+" not in name and "bc+" not in name:
                             continue
                         if not thorough and name.startswith("alg-") and (role == 1 or ncas == 2) and name not in (
                                 "alg-inner2-outer2", "alg-inner2-outer2-sigbad", "alg-inner0-outer2", "alg-inner2-outer0", "alg-inner5-outer5", "alg-inner1-outer1", "alg-inner3-outer3"):
@@ -316,6 +329,22 @@ def gen(ctx):
             c2 = copy.deepcopy(ch); c2[-1].update(i=2, g=2)          # CA_0 self-signed, not anchored -> issuer 2 not in store
             add(vline(form, role, 6, NOW, c2, st), "verify:%s:role%d:self-signed-intermediate-unanchored" % (form, role))
             add(vline(form, role, 6, NOW, c2, st + [copy.deepcopy(c2[-1])]), "verify:%s:role%d:self-signed-intermediate-in-store" % (form, role))
+    # --- buffer reuse: chain and trust store of the next operation lie at the same addresses with the same lengths;
+    #     only keys / signers / names differ (trust store reloaded in place, another CA of the same size in the chain)
+    for form, tlcp in forms:
+        for ncas in (0, 1, 2):
+            chA, stA = base(ncas, tlcp, 0)
+            variants = []
+            c2, s2 = copy.deepcopy(chA), copy.deepcopy(stA); s2[0].update(k=6, g=6); variants.append(("store-other-key", c2, s2))
+            c2, s2 = copy.deepcopy(chA), copy.deepcopy(stA); s2[0].update(k=6, g=6); c2[-1].update(g=6); variants.append(("store-other-key-chain-follows", c2, s2))
+            if ncas:
+                c2, s2 = copy.deepcopy(chA), copy.deepcopy(stA); c2[-1].update(k=6); variants.append(("ca-other-key", c2, s2))
+                c2, s2 = copy.deepcopy(chA), copy.deepcopy(stA); c2[-1].update(k=6); c2[-2].update(g=6); variants.append(("ca-other-key-child-follows", c2, s2))
+            c2, s2 = copy.deepcopy(chA), copy.deepcopy(stA); c2[0].update(g=6); variants.append(("leaf-other-signer", c2, s2))
+            for nm, cB, sB in variants:
+                A = vline(form, 0, 6, NOW, chA, stA); B = vline(form, 0, 6, NOW, cB, sB)
+                add("seq %s | %s | %s | %s" % (A, B, A, B), "seq:%s:%s:ncas%d" % (form, nm, ncas))
+                add("seq %s | %s | %s" % (B, A, B), "seq:%s:%s:ncas%d" % (form, nm, ncas))
     # --- C: random multi-deviation chains
     nrand = 700 if not thorough else 12000
     for n in range(nrand):
@@ -388,8 +417,17 @@ def compare(ctx, cases, impl, model, variant):
         a, b = impl[i], model[i]
         op = line.split(" ", 2)
         ctx.count("op:" + op[0] + (":" + op[1] if op[0] == "verify" else ""))
-        if b.startswith("MODEL-") or b.count("|") != 3:
+        if b.startswith("MODEL-") or (b.count("|") != 3 and op[0] != "seq"):
             ctx.violation("model:" + cell, "model-side failure on `%s`: %s" % (line[:200], b[:200]), {"kind": "model", "op": line, "model": b}, False)
+            continue
+        if op[0] == "seq":
+            # a sequence in one process: every step compared with the repaired model
+            sa, sb = a.split(" ;; "), [x.split("|")[0].strip() for x in b.split(" ;; ")]
+            if sa == sb:
+                ctx.cell(cell + ":ok")
+            else:
+                ctx.violation(cell, "sequence of operations on reused buffers: step results %s, the model evaluated on the actual bytes gives %s [%s]: `%s`" % (sa, sb, variant, line[:300]),
+                              {"kind": "failing-input", "op": line, "impl": a, "expected": " ;; ".join(sb), "variant": variant}, True)
             continue
         cols = [c.strip() for c in b.split("|")]      # repaired, only19, only20, legacy
         if a == cols[0]:
